@@ -48,7 +48,7 @@ def main():
         res["checks"] = {}
         for p in props:
             t = time.time()
-            rc, out = sh(["./check", p, "--tier", tier], env=dict(os.environ, VERIF_REPO=wt, VERIF_SCRATCH_BASE="/tmp"), cwd="/verif")
+            rc, out = sh(["./check", p, "--tier", tier], env=dict(os.environ, VERIF_REPO=wt, VERIF_SCRATCH_BASE="/tmp"), cwd=os.path.dirname(os.path.dirname(os.path.abspath(__file__))))
             viol = [l for l in out.splitlines() if l.startswith("VIOLATION")]
             first = next((l for l in out.splitlines() if l.startswith("  verdict=")), "")
             res["checks"][p] = {"exit": rc, "violations": len(viol), "first": first[:300], "wall_s": round(time.time() - t, 1),
